@@ -193,11 +193,24 @@ def bisect(ctx, rep):
     for ex in exits:
         verdict = 'unknown'
         t = ex.test
+        from ..idioms import resolve
+        t = resolve(fn.node, t) if isinstance(t, ast.Name) else t
+        negated = False
+        while isinstance(t, ast.UnaryOp) and isinstance(t.op, ast.Not):
+            t, negated = t.operand, not negated
         if tolp and isinstance(t, ast.Compare) and len(t.ops) == 1 and isinstance(t.ops[0], (ast.Lt, ast.LtE, ast.Gt, ast.GtE)):
-            from ..idioms import resolve
             left, right = t.left, t.comparators[0]
-            if isinstance(t.ops[0], (ast.Gt, ast.GtE)):
-                left, right = right, left
+            small = isinstance(t.ops[0], (ast.Lt, ast.LtE))     # `left` is the smaller side
+            if negated:
+                small = not small
+            # put the side that measures the bracket on the left
+            def measures_width(e_):
+                e_ = resolve(fn.node, e_) if isinstance(e_, ast.Name) else e_
+                return any(isinstance(x, ast.BinOp) and isinstance(x.op, ast.Sub) for x in ast.walk(e_)) and \
+                    len({al.get(x.id) for x in ast.walk(e_) if isinstance(x, ast.Name)} & {lo, hi}) == 2
+            if measures_width(right) and not measures_width(left):
+                left, right, small = right, left, not small
+            wide_exit = measures_width(left) and not small    # exits when the width is ABOVE the bound
             left = resolve(fn.node, left) if isinstance(left, ast.Name) else left
             pieces = [left] + [resolve(fn.node, x) for x in ast.walk(left) if isinstance(x, ast.Name) and x.id not in al]
             names = {x.id for pc in pieces for x in ast.walk(pc) if isinstance(x, ast.Name)}
@@ -206,7 +219,9 @@ def bisect(ctx, rep):
             reds = {call_name(x) for pc in pieces for x in ast.walk(pc) if isinstance(x, ast.Call)}
             if width and len(ends) >= 2 and not any(isinstance(x, ast.Call) and any(tg.kind == 'proj' for tg in ctx.cg.targets(fn, x)) for pc in pieces for x in ast.walk(pc)):
                 is_tol = isinstance(right, ast.Name) and right.id == tolp[0]
-                if is_tol and reds & {'max', 'amax'} and not reds & {'min', 'amin', 'mean', 'median'}:
+                if wide_exit:
+                    verdict = 'bad: the loop is left while the bracket is still WIDER than the bound (test inverted): no lane has converged'
+                elif is_tol and reds & {'max', 'amax'} and not reds & {'min', 'amin', 'mean', 'median'}:
                     verdict = 'good'
                 elif reds & {'min', 'amin', 'mean', 'median'} and not reds & {'max', 'amax'}:
                     verdict = 'bad: the exit looks at the narrowest / average bracket: lanes that have not converged are cut off'
@@ -334,6 +349,25 @@ def chandrupatla(ctx, rep):
     if not loops:
         return
     lp = loops[0]
+    # the loop is left early only when EVERY lane has terminated
+    from ..idioms import resolve as _res
+    for ex in [s_ for s_ in ast.walk(lp) if isinstance(s_, ast.If) and any(isinstance(x, ast.Break) for b_ in s_.body for x in ast.walk(b_))]:
+        t = ex.test
+        neg = False
+        t = _res(fn.node, t) if isinstance(t, ast.Name) else t
+        while isinstance(t, ast.UnaryOp) and isinstance(t.op, ast.Not):
+            t, neg = t.operand, not neg
+        red = call_name(t) if isinstance(t, ast.Call) else None
+        if red in ('all', 'any'):
+            if neg:
+                rep.bad('D5.tol', fn, ex, f'the loop is left when NOT {red}(...) lanes have terminated (test inverted): with unfinished lanes the first iterate is returned',
+                        construct='chandrupatla exit test')
+            elif red == 'any':
+                rep.bad('D5.tol', fn, ex, 'the loop is left as soon as ANY lane has terminated: the other lanes are cut off before they converge', construct='chandrupatla exit test')
+            else:
+                rep.ok('D5.tol', fn, ex, 'the loop is left when all lanes have terminated', construct='chandrupatla exit test')
+        else:
+            rep.undecided('D5.tol', fn, ex, f'early exit on `{short(ex.test, 50)}`: not a reduction over the lanes', construct='chandrupatla exit test')
     # every evaluated point is clipped into the bracket
     evals = [c for c in ast.walk(lp) if isinstance(c, ast.Call) and isinstance(c.func, ast.Name) and c.func.id == fp]
     from ..idioms import assignments
